@@ -77,17 +77,20 @@ class QGen:
         return self.rng.choice(gen_json.KEYS_PLAIN + gen_json.KEYS_ODD[:6])
 
     def some_index(self, n: int) -> int:
+        if self.rng.random() < 0.02:
+            return self.rng.choice([9007199254740991, -9007199254740991, 100, -100])
         if n and self.rng.random() < self.opts["p_follow"]:
             return self.rng.choice([self.rng.randrange(n), -1 - self.rng.randrange(n)])
         return self.rng.choice([0, 1, 2, -1, -2, 5, -7])
 
     def slice_text(self) -> str:
         def b() -> str:
-            return self.rng.choice(["", "", "0", "1", "2", "-1", "-2", "5", "-5", "3"])
+            return self.rng.choice(["", "", "0", "1", "2", "-1", "-2", "5", "-5", "3", "100", "-100"])
 
-        s = f"{b()}:{b()}"
+        sp = self.rng.choice(["", "", "", " "])
+        s = f"{b()}{sp}:{sp}{b()}"
         if self.rng.random() < 0.5:
-            s += ":" + self.rng.choice(["", "1", "2", "-1", "-2", "0", "3"])
+            s += ":" + self.rng.choice(["", "1", "2", "-1", "-2", "0", "3", "5", "-5", "100", "-100"])
         return s
 
     # ------------------------------------------------------------- segments
@@ -211,7 +214,8 @@ class QGen:
         if r < 0.4:
             return self.rng.choice(["1.5", "1.0", "0.5", "-2.5", "1e-1"])
         if r < 0.7:
-            return self.quote(self.rng.choice(["a", "abc", "", "1", "x y", "b", "string", "number"]))
+            return self.quote(self.rng.choice(["a", "abc", "", "1", "x y", "b", "string", "number", "q'uote", 'dq"uote', "é", "ctl\n\x00",
+                                               "back\\slash", "\U0001f600"]))
         if r < 0.8:
             return self.rng.choice(["true", "false", "True", "False"])
         if r < 0.9:
@@ -343,7 +347,7 @@ class QGen:
         ws = " " if self.rng.random() < 0.05 else ""
         return "$" + ws + body
 
-    def compound(self, max_ops: int = 3, ops: str = "|&") -> str:
+    def compound(self, max_ops: int = 4, ops: str = "|&") -> str:
         n = self.rng.randint(1, max_ops)
         out = self.simple()
         for _ in range(n):
